@@ -168,6 +168,47 @@ CHECKS['C15'] = {
     'explanation': 'units obs + resp(create_notification)',
 }
 
+T_BLK = ['callee contracts assumed in unit blk and justified elsewhere: BlockValue codec/size()/new() and negotiate_block_size_if_necessary by the complete Kani harnesses (C13, negotiate_*), compute_message_size_hack by the encoder contract of unit enc',
+         'R19 chunks(size).skip(n) cursor, R21 extending_splice at its call site (zero-extend then replace [a,b) by the payload; refuses growth beyond 16 KiB), R20 set_options_as with a one-element list, R24 lru_time_cache as a per-key map whose entry may come back as default (expiry) and whose other entries are never modified',
+         'R9 HandlingError constructors reduced to the response code they set; R22/R23 clone_from / ref patterns desugared; derived Clone of Packet/BlockValue/LinkedList is field-wise',
+         'the cache key is abstract (key_of); RequestCacheKey::from (method, path segments, source) is not verified']
+_BLK_NOTE = 'Trusted: Verus/Z3/vstd; the accessor layer is verified in the same unit (see C01/C06); see trusted_base for the assumed callee contracts and rules R19-R24.'
+CHECKS['C09'] = {
+    'level': 'proof', 'units': ['blk'],
+    'kani': [_k('negotiate_within_budget', 'the callee contract used for the 4.13 / size-hint decision: for budgets overhead+28..1280 a request is left unfragmented only if payload + overhead + 12 < budget; size hints are powers of two 16..1024 within the budget', timeout=900)],
+    'technique': 'contract-based deductive verification (Verus) of maybe_handle_request_block1 read verbatim, against contracts of its callees; step contract over request, response and per-key state',
+    'level_text': 'Unbounded proof of the Block1 step for all requests and states: a block (num, more, szx) with payload p turns the buffer into splice(buffer zero-extended, [num*size, num*size+size) := p); a non-final block is answered 2.31 Continue with a Block1 option and does not reach the application (Ok(true), request untouched); the final block hands the whole buffer to the application (payload replaced, buffer released) and adds the Block1 acknowledgement; without a Block1 option an oversized request is answered 4.13 with a Block1 size hint. The in-order upload history follows by induction from the step contract (lemma in the same unit).',
+    'level_note': _BLK_NOTE + ' Known finding D8 (duplicate FINAL block re-delivers a body) is outside the step contract and listed in known_findings.txt.',
+    'trusted': [T_VERUS, T_R1] + T_BLK,
+    'explanation': 'unit blk',
+}
+CHECKS['C08'] = {
+    'level': 'proof', 'units': ['blk'], 'kani': [],
+    'technique': 'contract-based deductive verification (Verus) of maybe_serve_cached_response, packet_clone_limited (loop invariant over the BTreeMap iteration), maybe_handle_request_block2, intercept_response read verbatim',
+    'level_text': 'Unbounded proof of the Block2 steps for all bodies, block numbers and sizes: block n of size s of the cached body exists iff n*s < len, carries exactly bytes [n*s, min((n+1)*s, len)), has the more flag set iff (n+1)*s < len, echoes number and size, and repeats every option of the cached reply; a follow-up request with a cached reply is served without consulting the application and the cache entry is released exactly when the block served was the last; a request without Block2 or without a cached reply passes through untouched.',
+    'level_note': _BLK_NOTE,
+    'trusted': [T_VERUS, T_R1] + T_BLK,
+    'explanation': 'unit blk',
+}
+CHECKS['C11'] = {
+    'level': 'proof', 'units': ['blk'],
+    'kani': [_k('negotiate_never_panics', 'all budgets 0..usize::MAX, overheads, payload sizes, client blocks: returns Ok or Err(code Some), no division by zero / overflow', timeout=900)],
+    'technique': 'Verus panic-freedom of the verbatim handler glue (every unwrap, index, arithmetic operation is an obligation) + complete Kani harness for the block-size arithmetic',
+    'level_text': 'Proof: intercept_request, intercept_response and the four step functions return normally for every request, reply, state and budget (Verus: no unwrap of None, no overflow, no out-of-range index; Kani: the negotiation arithmetic for every budget from 0); every Err carries a response code unless there is no prepared response to render it into; a Block1 block whose end lies more than 16 KiB beyond the buffer is rejected with the buffer unchanged, and an accepted block grows the buffer by at most 16 KiB plus its payload.',
+    'level_note': _BLK_NOTE + ' Precondition: stored states satisfy the data-structure invariant (established by BlockHandler::new: empty cache).',
+    'trusted': [T_VERUS, T_R1, T_KANI] + T_BLK,
+    'explanation': 'unit blk + kani negotiate_never_panics',
+}
+CHECKS['C12'] = {
+    'level': 'proof', 'units': ['blk'], 'kani': [],
+    'technique': 'Verus frame conditions on the verbatim entry points: only the state under the request key is touched; replies keep message id, token and token length of the current request',
+    'level_text': 'Proof relative to the cache contract (R24): intercept_request / intercept_response read and write only the state stored under key_of(request) - every other key keeps its state (or expires) - so transfers with different keys cannot observe each other; and on every path, including blocks served from the cache via packet_clone_limited, the reply keeps the message id, token and token-length field that CoapResponse::new took from the request being answered.',
+    'level_note': _BLK_NOTE + ' NOT covered: that keys differ whenever endpoint, method or path segments differ (RequestCacheKey::from uses get_path_as_vec: iterator collect, not read by Verus).',
+    'trusted': [T_VERUS, T_R1] + T_BLK,
+    'not_covered': ['key injectivity (RequestCacheKey::from)', 'the external lru_time_cache behaves as a per-key map'],
+    'explanation': 'unit blk',
+}
+
 HOOK_COMMITS = ['7321ffc']
 
 NOT_APPLICABLE = [
